@@ -357,15 +357,15 @@ def addr_convert(addr, prefix, encoding=None, to_encoding=None):
     :return str: New converted address
     """
 
+    da = deserialize_address(addr, encoding=encoding)
     if encoding is None:
-        da = deserialize_address(addr)
         encoding = da['encoding']
     pkh = addr_to_pubkeyhash(addr, encoding=encoding)
     if to_encoding is None:
         to_encoding = encoding
     if isinstance(prefix, TYPE_TEXT) and to_encoding == 'base58':
         prefix = to_hexstring(prefix)
-    return pubkeyhash_to_addr(pkh, prefix=prefix, encoding=to_encoding)
+    return pubkeyhash_to_addr(pkh, prefix=prefix, encoding=to_encoding, witver=da['witver'] or 0)
 
 
 def path_expand(path, path_template=None, level_offset=None, account_id=0, cosigner_id=0, purpose=84,
